@@ -25,6 +25,10 @@ Definition locks_ok (l : list lock_site) : bool :=
 Definition parse_wraps_ok (l : list (string * bool)) : bool :=
   Nat.eqb (List.length l) 6 && forallb snd l.
 
+(* BaseUpdate re-enters itself and therefore unlocks by hand: every return reached with the mutex taken must have released it *)
+Definition returns_ok (l : list (string * bool)) : bool :=
+  negb (Nat.eqb (List.length l) 0) && forallb snd l.
+
 (* ---------------- threads under one mutex ---------------- *)
 Section Threads.
   Variable St Op : Type.
